@@ -4,6 +4,8 @@ import MpireModel.Model.Worker
 import MpireModel.Proofs.Liveness
 import MpireModel.Proofs.Dispatch
 import MpireModel.Proofs.Worker
+import MpireModel.Model.ResultIter
+import MpireModel.Proofs.ResultIter
 /-!
 # C03 — every call terminates (the protocol-logic part; OS pipes, feeder threads and scheduler fairness are not modelled)
 
@@ -52,5 +54,32 @@ theorem worker_always_finishes (p : Mpire.Worker.Params) (env : Mpire.Worker.Env
     ∃ pre, Mpire.Worker.run p env items = pre ++ [.waitAllReceived, .dead] ∨
            Mpire.Worker.run p env items = pre ++ [.waitAllReceived, .restartReq, .dead] :=
   Mpire.Proofs.Worker.dead_last p env items
+
+/-! ## The caller's last wait: the result iterator ends (`Mpire.ResultIter`) -/
+section ResultIterator
+open Mpire.ResultIter
+
+/-- Once the length is known and every result is in, taking results never blocks: `next` returns what is queued, oldest
+first, and then raises StopIteration - blocking or not. -/
+theorem iterator_drains_then_stops (s : It) (n : Nat) (b : Bool) (hw : s.waiting = false) (hn : s.nTasks = some n)
+    (hr : s.nReturned + s.items.length = n) :
+    (run s (List.replicate (s.items.length + 1) (.next b))).2 = s.items.map .value ++ [.stop] :=
+  Mpire.Proofs.ResultIter.drain s n b hw hn hr
+
+/-- A caller that waits in `next` is released by the length when it was only waiting for the end (an input of unknown
+length whose last result was taken before the length became known): no lost wake-up at the end of a lazy call. -/
+theorem waiting_caller_released_by_length (s : It) (n : Nat) (hw : s.waiting = true) (hn : s.nTasks = none)
+    (hr : s.nReturned = n) :
+    (step s (.setLength n)).2 = .stop ∧ (step s (.setLength n)).1.waiting = false := by
+  simp [step, hn, hw, exhausted, hr]
+
+/-- ... and by the next result otherwise. -/
+theorem waiting_caller_released_by_result (s : It) (v : Nat) (hw : s.waiting = true) (hi : s.items = []) :
+    (step s (.setOk v)).2 = .value v ∧ (step s (.setOk v)).1.waiting = false := by
+  simp [step, hw, hi]
+
+example : (run (init none) [.next true, .setLength 0]).2 = [.waits, .stop] := by decide
+
+end ResultIterator
 
 end Mpire.C03
